@@ -64,3 +64,12 @@ func tmpFile(c *Ctx, name, content string) string {
 func (r cliRes) brief() string {
 	return fmt.Sprintf("exit=%d signal=%v timeout=%v panic=%v stderr=%q", r.Exit, r.Signal, r.TimedOut, r.Panic, Trunc(r.Stderr, 400))
 }
+
+// readTmp reads a file a command wrote into the worker's scratch directory ("" when absent).
+func readTmp(c *Ctx, name string) string {
+	b, err := os.ReadFile(filepath.Join(c.Tmp, name))
+	if err != nil {
+		return ""
+	}
+	return string(b)
+}
